@@ -23,7 +23,41 @@ def _unmodelled(kind="unmodelled"):
     return dict(k=kind, text="", id="", id2="")
 
 
+POSFIELDS = {"L": 5, "C": 6, "P": 3, "E": 8, "G": 5, "F": 7, "O": 2, "U": 2}
+
+
 def _op_of(gfapy, ev):
+    o = _op_of0(gfapy, ev)
+    if o is not None and o["k"] == "unmodelled" and "note" not in o:
+        a = ev["args"] or {}
+        o["note"] = "%s %s" % (ev["op"], a.get("field", ""))
+    return o
+
+
+def _setf(gfapy, a):
+    """set() of a positional field that is not the identifier -> SetField of the spec"""
+    text, field, val = a.get("text"), a.get("field"), a.get("value", "")
+    if not text or text[0] not in "SLCPEGFOU" or "co:Z:GFAPY_virtual_line" in text:
+        return None
+    m = re.fullmatch(r"'([^'\\]*)'|(-?[0-9]+)", val)
+    if not m:
+        return None
+    value = m.group(1) if m.group(1) is not None else m.group(2)
+    try:
+        line = gfapy.Line(text, vlevel=0)
+        names = list(line.positional_fieldnames)
+        field = line.__class__.FIELD_ALIAS.get(field, field)
+    except Exception:
+        return None
+    if field not in names or field == line.__class__.NAME_FIELD or value == "" or "\t" in value:
+        return None
+    pos = names.index(field) + 1
+    f = text.split("\t")
+    new = "\t".join(f[:pos] + [value] + f[pos + 1:])
+    return dict(k="setf", text="", texts=[text, new], id="", id2="valid", n=pos)
+
+
+def _op_of0(gfapy, ev):
     op, a = ev["op"], ev["args"] or {}
     if a is None:
         return _unmodelled()
@@ -46,7 +80,12 @@ def _op_of(gfapy, ev):
         if a.get("field") in (a.get("name_field"), "name") and a.get("id") and \
                 re.fullmatch(r"'[^'\\]+'", a.get("value", "")):
             return dict(k="ren", text="", id=str(a["id"]), id2=a["value"][1:-1])
-        return _unmodelled()
+        return _setf(gfapy, a) or _unmodelled()
+    if op == "remove_self_links":
+        return dict(k="rsl", text="", id="", id2="")
+    if op == "remove_small_components":
+        m = re.fullmatch(r"\((\d+),\)", a.get("args", ""))
+        return dict(k="rsc", text="", id="", id2="", n=int(m.group(1))) if m else _unmodelled()
     if op == "delete":
         if a.get("id") and re.fullmatch(r"[A-Za-z][A-Za-z0-9]", a.get("field", "")):
             return dict(k="deltag", text="H\t%s:Z:x" % a["field"], id=str(a["id"]), id2="")
@@ -132,14 +171,14 @@ def _record(gfapy, t, gfa, o, error):
     cb, vt.callback = vt.callback, None     # the projection itself must not be traced
     try:
         lidx = pool.add(core.abstract_input(o["text"])) if o.get("text") else 0
-        ls = [pool.add(core.abstract_input(x)) for x in o.get("texts", []) if x != ""] if o["k"] == "load" else []
+        ls = [pool.add(core.abstract_input(x)) for x in o.get("texts", []) if x != ""] if o["k"] in ("load", "setf") else []
         if o["k"] == "load" and any(x == "" for x in o.get("texts", [])):
             o = dict(_unmodelled(), note="load with empty line")
         obs = project.observe(gfa, pool, _universe(gfa))
     finally:
         vt.callback = cb
     t["ev"].append({"op": {"k": o["k"], "l": lidx, "id": o["id"], "id2": o["id2"], "ls": ls,
-                           "n": core.name_class(o["id2"]) if o["k"] == "ren" else 0},
+                           "n": core.name_class(o["id2"]) if o["k"] == "ren" else o.get("n", 0)},
                     "res": res, "exc": exc, "obs": obs, "qsame": 1, "qdiff": []})
     t["src"].append({k: v for k, v in o.items()})
 
